@@ -24,7 +24,7 @@ SUITE_MODULES = {
     "typestate": "StreamTSC", "request": "SessionC",
     "session": "E2C", "control": "E2C", "control_cut": "E2C", "streams": "E2C", "foreign": "E2C",
     "unknown_uni": "E2C", "stall": "E2C", "pace": "E2C", "emit": "E2C", "signals": "E2C", "wdgram": "E2C", "client": "E2C", "pair": "E2C", "requests": "E2C", "credit": "E2C",
-    "trace": "E3C", "cell": "E3C", "backlog": "E3C",
+    "trace": "E3C", "cell": "E3C", "backlog": "E3C", "decide": "E3C",
     "pin": "E4C", "digest": "E4C", "pem": "E4C", "identity": "E4C", "bind": "E4C", "idle": "E4C", "alpn": "E4C", "reload": "E4C",
     "wire": "WireC", "settings": "WireC", "dgram": "WireC", "capsule": "WireC", "ids": "WireC", "status": "WireC",
 }
@@ -153,8 +153,8 @@ PROPS["C04"] = {
 
 PROPS["C18"] = {
     "title": "Only well-formed WebTransport requests and responses are admitted",
-    "corr_modules": ["WireC", "QpackC", "SessionC", "E2C"],
-    "suites": [("e1", "status", ["debug"]), ("e1", "request", ["debug"]), ("e2", "client", ["debug"]), ("e2", "requests", ["debug"])],
+    "corr_modules": ["WireC", "QpackC", "SessionC", "E2C", "E3C"],
+    "suites": [("e1", "status", ["debug"]), ("e1", "request", ["debug"]), ("e2", "client", ["debug"]), ("e2", "requests", ["debug"]), ("e2", "decide", ["debug"])],
     "technique": PROOF_TECH,
     "level_text": "theorems: request admitted iff extended CONNECT/webtransport/https with authority and path; every status constructor stays within 100..599 (print/parse identity on the whole range by exhaustive computation inside the proof); acceptance iff 2xx; reserved fields can never be overridden; pre-repair code refuted; tie: all 65 536 status integers plus decorated strings through the real parser",
     "level_note": CODEC_NOTE + "; '+200' and '0200' denote in-range numbers and are treated as numeric (DESIGN.md 5 C18)",
@@ -267,8 +267,8 @@ PROPS["C16"] = {
 
 PROPS["C02"] = {
     "title": "Session setup carries the request faithfully and mirrors the decision",
-    "corr_modules": ["QpackC", "SessionC", "E2C"],
-    "suites": [("e1", "qpack", ["debug"]), ("e1", "request", ["debug"]), ("e2", "client", ["debug"])],
+    "corr_modules": ["QpackC", "SessionC", "E2C", "E3C"],
+    "suites": [("e1", "qpack", ["debug"]), ("e1", "request", ["debug"]), ("e2", "client", ["debug"]), ("e2", "decide", ["debug"])],
     "technique": PROOF_TECH,
     "level_text": "theorems: request fields = fixed pseudo-headers + URL authority/path, extras kept and never overriding; outcome = f(status) only (2xx iff session), extra response fields irrelevant; QPACK prefix integers round-trip for every width, static references sound, decoder total; tie: header maps through the real encoder/decoder (static hits, Huffman/raw, length boundaries) and the real client against a raw server for every status class -- the request bytes on the wire equal the model's byte for byte",
     "level_note": CODEC_NOTE + WIRE_NOTE + "; URL parsing (url crate) is an oracle; the Huffman round trip is compared exhaustively (all symbols, sampled pairs) rather than proved in this revision",
